@@ -69,6 +69,18 @@ def step (d : DState) (line : String) : DState × String :=
       let (d', r) := observe { d with st := s1 }
       (d', st ++ " " ++ r)
     | _, _ => (d, "bad-op")
+  | ["sadd", a, b, c] =>
+    -- an Add during which the clock moves on by `c`: the late check reads the old instant
+    match a.toNat?, b.toNat?, c.toNat? with
+    | some slot, some ty, some k =>
+      if ty ≥ 16 then (d, "bad-op") else
+      let id := slot * 16 + ty
+      let (s1, o) := CharonV.Deadliner.step (dlFn d) 10 d.st (.add id 0)
+      let st := match o with | .status s => statusStr s | _ => "?"
+      let (s2, _) := CharonV.Deadliner.step (dlFn d) 10 s1 (.advance k)
+      let (d', r) := observe { d with st := s2 }
+      (d', st ++ " " ++ r)
+    | _, _, _ => (d, "bad-op")
   | ["qadv", a] =>
     -- quiet advance: the clock moves while nothing is due and nobody talks to the deadliner
     match a.toNat? with
